@@ -347,8 +347,23 @@ fn entry_for(r: &mut Rng, vt: &str, n: usize, p_pct: usize) -> char {
 
 fn simple(r: &mut Rng, id: String, variant: char, kind: u8, vt: &'static str, p_pct: usize, tiny: usize, nested: usize) -> Case {
     let utf8 = variant == 'C';
-    let (a, set) = any_set(r, utf8, TIERS, tiny, nested);
-    let hs = haystacks(r, &set, &a, utf8);
+    let (a, mut set) = any_set(r, utf8, TIERS, tiny, nested);
+    let mut hs = haystacks(r, &set, &a, utf8);
+    if r.pct(2) && !a.is_empty() {
+        // a pattern longer than 255 (and sometimes 65 535 bytes would be next: not generated) items:
+        // lengths stored in narrow integers would show here
+        let len = r.range(256, 400);
+        let mut long: Word = word(r, &a, len, len);
+        long.push(r.pick(&a));
+        let tail: Word = long[long.len() - r.range(1, 3)..].to_vec();
+        let mut h: Word = word(r, &a, 0, 4);
+        h.extend_from_slice(&long);
+        h.extend(word(r, &a, 0, 4));
+        set.push(long);
+        set.push(tail);
+        set = dedup(set);
+        hs.push(h);
+    }
     let entry = entry_for(r, vt, set.len(), p_pct);
     let vals = values(r, vt, set.len());
     let nfb = pick_nfb(r);
